@@ -36,6 +36,11 @@ def Acc.peek (a : Acc) : Bool := a.coins.headD false
 def Acc.draw (a : Acc) (lvl : Nat) : Acc :=
   { a with coins := a.coins.tail, used := a.used + 1, lv := a.lv ++ [lvl] }
 
+/-- bookkeeping after one `compact` of a level-`lvl` compactor -/
+def Acc.afterCompact (a : Acc) (lvl : Nat) (fresh oddConst rangeOk : Bool) : Acc :=
+  let a1 := if fresh then a.draw lvl else a
+  { a1 with oddConst := a1.oddConst || oddConst, throws := a1.throws || !rangeOk }
+
 /-- `k_(std::max<uint8_t>(static_cast<int>(k) & -2, static_cast<int>(req_constants::MIN_K)))`: both arguments are converted
 to `uint8_t` (as coded: k is reduced mod 256) -/
 def effectiveK (T : Tun) (k : Nat) : Nat := max ((k - k % 2) % 256) (T.minK % 256)
@@ -74,8 +79,7 @@ def compressLoop (T : Tun) (F : SecFns ρ) (hra : Bool) (k : Nat) :
         | n :: _ => n
       let ctr1 : Ctr := if top then { ctr with maxNom := ctr.maxNom + nx.nomCap T } else ctr
       let r := c1.compact T F nx acc.peek
-      let acc1 := if r.fresh then acc.draw c1.lgWeight else acc
-      let acc2 := { acc1 with oddConst := acc1.oddConst || r.oddConst, throws := acc1.throws || !r.rangeOk }
+      let acc2 := acc.afterCompact c1.lgWeight r.fresh r.oddConst r.rangeOk
       let ctr2 : Ctr := { retained := ctr1.retained - r.num, maxNom := ctr1.maxNom + r.capNew - r.capOld }
       if T.lazy && ctr2.retained < ctr2.maxNom then
         (r.cur :: r.nxt :: rest.tail, ctr2, acc2)
